@@ -18,8 +18,9 @@ from . import world as W
 _G = {}
 
 
-def _init_worker(consts, init, caching, vertex_cls_name, cache_mode=None):
+def _init_worker(consts, init, caching, vertex_cls_name, cache_mode=None, impl=None):
     _G["cache_mode"] = cache_mode
+    _G["impl"] = impl
     from edgegraph.structure import Vertex
     from . import probes as P
     from . import render_exec  # noqa: F401  (registers the mixed vertex-class pool)
@@ -56,6 +57,12 @@ def _run_task(task):
         for pc in path:
             w.apply(pc)
         pre = w.project()
+        if _G.get("impl") and c["op"] in _G["impl"]:
+            from . import impl_trace
+            res, entered = impl_trace.apply_traced(w, c)
+            post = w.project()
+            out.append((pre, c, res, post, entered))
+            continue
         res = w.apply(c)
         post = w.project()
         out.append((pre, c, res, post))
@@ -124,7 +131,7 @@ def parse_transitions(lines):
 
 def explore(consts, init_state, calls_at, model_states, *, caching=False, procs=16, max_records=None,
             probe=None, vertex_cls=None, keep_records=True, probe_filter=None, cache_mode=None,
-            sink=None, probe_sink=None, chunk=30000, confirmed_out=None, probe_chunk=(5000, 150000)):
+            sink=None, probe_sink=None, chunk=30000, confirmed_out=None, probe_chunk=(5000, 150000), impl=None):
     """probe: a picklable spec for harness.probes.run, evaluated once in every confirmed state
     (optionally only where probe_filter(state_key) is true).
     sink / probe_sink: when given, records / probed entries are handed over in chunks and not kept."""
@@ -138,7 +145,7 @@ def explore(consts, init_state, calls_at, model_states, *, caching=False, procs=
     nrec = nprobed = nprobes = pending_probes = 0
     offmodel = 0
     level = 0
-    with ctx.Pool(procs, initializer=_init_worker, initargs=(consts, init_state, caching, vertex_cls, cache_mode)) as pool:
+    with ctx.Pool(procs, initializer=_init_worker, initargs=(consts, init_state, caching, vertex_cls, cache_mode, impl)) as pool:
         while frontier:
             tasks = []
             for ks in frontier:
@@ -175,6 +182,8 @@ def explore(consts, init_state, calls_at, model_states, *, caching=False, procs=
                     if keep_records:
                         records.append({"id": rid, "pre": pre, "c": c, "res": res, "post": post,
                                         "cls": W.alias_class(pre, c), "plen": len(path)})
+                        if cache_mode is None and len(tup) > 4:
+                            records[-1]["entered"] = tup[4]
                     kp = W.key(post)
                     if kp in model_states:
                         if kp not in confirmed:
